@@ -33,6 +33,65 @@ ASSUMPTIONS = ['secrets.token_bytes is the OS cryptographic random source',
 M = 1 << 24
 URLSAFE = re.compile(r'^[A-Za-z0-9_-]*$')
 
+from vf.rt import P, cond, verdict, fail, untraced  # noqa: E402
+
+STARTS = (0, 1, M - 700, M - 1, 12345, M // 2)
+PATTERNS = ('zeros', 'ones', 'counter', 'repeat-3')
+K = 1400
+
+
+class _PatternSecrets:
+    """Random source for the bounded-history condition: constant, repeating or counting output."""
+    def __init__(self, kind):
+        self.kind, self.n = kind, 0
+
+    def token_bytes(self, n=32):
+        self.n += 1
+        if self.kind == 'zeros':
+            return b'\x00' * n
+        if self.kind == 'ones':
+            return b'\xff' * n
+        if self.kind == 'repeat-3':
+            return bytes([(self.n % 3) * 85]) * n
+        return bytes((self.n * 7 + i) % 256 for i in range(n))
+
+
+def _history(si, pi):
+    """K consecutive issues of ONE server object starting at a chosen counter value, run on the real method: every id is
+    20 URL-safe characters and no two are equal, whatever the (constant / repeating) random source returns."""
+    obj = object.__new__(base_server.BaseServer)
+    obj.sequence_number = STARTS[si]
+    old = base_server.secrets
+    base_server.secrets = _PatternSecrets(PATTERNS[pi])
+    try:
+        seen = {}
+        for i in range(K):
+            try:
+                sid = base_server.BaseServer.generate_id(obj)
+            except Exception as e:  # noqa
+                return fail(PROP, 'ID-RAISES', 'issue #%d from counter %d: %s: %s' % (i, STARTS[si], type(e).__name__, e))
+            if not isinstance(sid, str) or len(sid) != 20 or not URLSAFE.match(sid):
+                return fail(PROP, 'ID-FORM', 'issue #%d from counter %d (random source %s): id %r is not 20 characters over [A-Za-z0-9_-]' % (
+                    i, STARTS[si], PATTERNS[pi], sid))
+            if sid in seen:
+                return fail(PROP, 'ID-DUPLICATE', 'issues #%d and #%d from counter %d (random source %s) are both %r' % (
+                    seen[sid], i, STARTS[si], PATTERNS[pi], sid))
+            seen[sid] = i
+        return ''
+    finally:
+        base_server.secrets = old
+
+
+@cond(quick=dict(timeout=120), thorough=dict(timeout=300))
+def consecutive_issues(si: int, pi: int) -> str:
+    """
+    pre: 0 <= si < len(STARTS) and 0 <= pi < len(PATTERNS)
+    post: _ == ''
+    """
+    # bounded-history companion of the per-call bit-vector queries: it still runs when an edit makes generate_id
+    # use state or helpers the AST translator does not support (the queries then report "encoding unsupported")
+    return verdict(untraced(_history, si, pi))
+
 
 def _in_charset(c):
     return z3.Or(z3.And(z3.UGE(c, ord('A')), z3.ULE(c, ord('Z'))), z3.And(z3.UGE(c, ord('a')), z3.ULE(c, ord('z'))),
